@@ -823,6 +823,7 @@ const SIG_DUP_DOC: &str = "c04:document-with-duplicate-paths-accepted";
 const SIG_EMPTY_SN_C04: &str = "c04:empty-short-name-element-not-indexed";
 const SIG_LOWEST_VERSION: &str = "c07:content-below-mixed-version-file-set-checked-against-lowest-version-only";
 const SIG_SHARED_SUBTREE: &str = "c03:merge-into-twin-siblings-shares-subtree";
+const SIG_ROOT_ONLY_FILE: &str = "c10:remove-file-that-alone-holds-the-root";
 const SIG_SN_NOT_FIRST: &str = "c04:short-name-not-first-accepted";
 const SIG_DUP_MIXED: &str = "c13:duplicate-of-model-with-files-of-different-versions";
 const SIG_ANCESTOR: &str = "c12:move-to-ancestor-parent-locked";
@@ -1417,6 +1418,7 @@ struct RmFilePre {
     doomed: Vec<usize>,
     before: Vec<usize>,
     others: Vec<(ArxmlFile, Option<String>)>,
+    root_only: bool,
 }
 
 impl Checker {
@@ -1505,7 +1507,9 @@ impl Checker {
         let before = self.live.get(k)?.clone();
         let doomed: Vec<usize> = before.iter().copied().filter(|i| *i != root && self.eff_files(&self.w.elems[*i]) == Some(vec![j])).collect();
         let others = m.files().filter(|x| *x != f).map(|x| (x.clone(), file_ser_norm(&x))).collect::<Vec<_>>();
-        Some(RmFilePre { k, last_file: others.is_empty(), doomed, before, others })
+        // the root element is in this file only although the model has other files (it was taken out of them with remove_from_file)
+        let root_only = !others.is_empty() && self.eff_files(&self.w.elems[root]) == Some(vec![j]);
+        Some(RmFilePre { k, last_file: others.is_empty(), doomed, before, others, root_only })
     }
 
     fn rmfile_post(&self, req: &str, p: &RmFilePre, out: &mut Vec<Failure>) {
@@ -1518,6 +1522,10 @@ impl Checker {
             let missing: Vec<usize> = want.iter().copied().filter(|i| !gone.contains(i)).take(5).collect();
             sn_only = extra.is_empty() && want.iter().filter(|i| !gone.contains(i)).all(|i| self.w.elems[*i].element_name() == ElementName::ShortName);
             let msg = format!("after `{req}`: removed although also in another file: {:?}; kept although only in the removed file: {:?}", extra, missing);
+            if p.root_only && extra.is_empty() {
+                out.push(Failure::known("C10", SIG_ROOT_ONLY_FILE, format!("{msg} (the removed file was the only one that held the root element; the other files of the model do not contain it)")));
+                return;
+            }
             out.push(if sn_only { Failure::known("C10", SIG_SN_SPLIT, format!("{msg} (SHORT-NAME elements with a file set of their own cannot be removed)")) } else { Failure::new("C10", "rmfile-elements", msg) });
         }
         for (f, ser) in &p.others {
